@@ -244,8 +244,12 @@ def unchanged(ctx, p, S0, k, prop="C16"):
 
 
 def _fd(tr):
+    """deep observation of the feature registry (the Feature dicts inside it are mutable too)"""
+    import copy
+
     f = tr.features
-    return (dict(f), f.time_key, str(f.position_key), f.tracklet_key, f.lineage_key)
+    return (copy.deepcopy({k: dict(v) for k, v in f.items()}), f.time_key, str(f.position_key), f.tracklet_key,
+            f.lineage_key)
 
 
 def _raw_attrs_same(p):
